@@ -118,8 +118,11 @@ func (m *AuthorizationModelGraph) FlattenNode(node *authzGraph.WeightedAuthoriza
 	return result, nil
 }
 
-func (m *AuthorizationModelGraph) canApplyRecursiveOptimization(node *authzGraph.WeightedAuthorizationModelNode, recursiveRelation, userType string) (*authzGraph.WeightedAuthorizationModelEdge, bool) {
-	var recursiveEdge *authzGraph.WeightedAuthorizationModelEdge
+// canApplyRecursiveOptimization walks the rewrite of a recursive relation and returns every edge (userset or TTU)
+// that leads back to the recursive relation, and whether all the remaining edges are cheap enough (weight 1)
+// for the recursive strategy to be applicable.
+func (m *AuthorizationModelGraph) canApplyRecursiveOptimization(node *authzGraph.WeightedAuthorizationModelNode, recursiveRelation, userType string) ([]*authzGraph.WeightedAuthorizationModelEdge, bool) {
+	var recursiveEdges []*authzGraph.WeightedAuthorizationModelEdge
 	edges, ok := m.GetEdgesFromNode(node)
 	if !ok {
 		return nil, false
@@ -137,26 +140,31 @@ func (m *AuthorizationModelGraph) canApplyRecursiveOptimization(node *authzGraph
 				continue
 			}
 		} else if edge.GetEdgeType() == authzGraph.DirectEdge || edge.GetEdgeType() == authzGraph.TTUEdge {
-			recursiveEdge = edge
+			recursiveEdges = append(recursiveEdges, edge)
 		} else {
 			edgeResult, canApply := m.canApplyRecursiveOptimization(edge.GetTo(), recursiveRelation, userType)
 			if !canApply {
 				allEdgesCanApply = false
 			}
-			if edgeResult != nil {
-				recursiveEdge = edgeResult
-			}
+			recursiveEdges = append(recursiveEdges, edgeResult...)
 		}
 	}
-	return recursiveEdge, allEdgesCanApply
+	return recursiveEdges, allEdgesCanApply
 }
 
 func (m *AuthorizationModelGraph) CanApplyRecursion(node *authzGraph.WeightedAuthorizationModelNode, userType string, newstrategy bool) (*authzGraph.WeightedAuthorizationModelEdge, bool) {
 	userRelation := tuple.GetRelation(userType)
 	// if it is not first time we don't need to resolve any recursive relation because we are already iterating over it
 	if userRelation == "" && node.GetRecursiveRelation() == node.GetUniqueLabel() && !node.IsPartOfTupleCycle() {
-		edge, ok := m.canApplyRecursiveOptimization(node, node.GetRecursiveRelation(), userType)
-		return edge, ok && newstrategy
+		edges, ok := m.canApplyRecursiveOptimization(node, node.GetRecursiveRelation(), userType)
+		// the recursive resolution follows a single recursive edge and treats every other recursive edge as if it
+		// did not exist (see FlattenNode with recursivePath). When the relation recurses through more than one edge,
+		// e.g. `[user, group#member] or member from parent`, a path may alternate between them, so the relation
+		// has to be resolved as a regular union where every edge is expanded under the visited filter.
+		if len(edges) != 1 {
+			return nil, false
+		}
+		return edges[0], ok && newstrategy
 	}
 
 	return nil, false
